@@ -25,7 +25,8 @@ RULE = ("(model, parameters, small-distance policy, setter history of 0-10 "
         "sectors and omni, scalar and array angles in [-180,180] incl. the "
         "floor angle +- delta.  Signature = (model, policy, history kinds, "
         "input form, has-small-distance); non-trivial = at least one distance "
-        "decided.")
+        "decided.  "
+        "Queries include exact zero distances (scalar and inside arrays). ")
 ASSUMPTIONS = ["shadowing is off (use_shadow_bool False): it is random by design",
                "Okumura-Hata distances may leave [1,20] km (the model only warns)"]
 
